@@ -83,7 +83,7 @@ def compatible(m1, m2):
 def build(case):
     steps = [copy.deepcopy(LET[l]) for l in case['base']]
     for i, st in enumerate(steps):  # distinct arguments per position: an input is a function of alias + captured arguments
-        _call_of(st)['a'] = [['x1', 'x2', 'xs', 'xt'][i]]
+        _call_of(st)['a'] = [['x1', 'xop', 'xs', 'xt'][i]]
     gaps = {}
     for kind, pos in case['mods']:
         tgt = _call_of(steps[pos]) if pos < len(steps) and kind in STEP_FAULTS + STEP_BODY + STEP_PRE else None
